@@ -136,7 +136,7 @@ class Harness:
 
 # total CPU seconds a check may spend in exploration (16 cores): the per-shard budget is capped so that the worst case stays
 # within it; a shard that hits its budget is reported as INCONCLUSIVE (never as exhausted)
-TIER_CPU = {"quick": 16 * 170.0, "thorough": 16 * 1500.0}
+TIER_CPU = {"quick": 16 * 300.0, "thorough": 16 * 1500.0}
 
 
 def run_pooled(harnesses: list, tier: str, seed: int, jobs: int) -> list:
